@@ -15,8 +15,12 @@ import (
 	"fmt"
 	"math/rand"
 	"os"
+	"runtime"
 	"sort"
+	"strconv"
 	"strings"
+	"sync/atomic"
+	"time"
 )
 
 type stream struct {
@@ -53,6 +57,29 @@ type runner struct {
 	in       *bufio.Scanner
 	out      *bufio.Writer
 	resolved *bufio.Writer
+	// watchdog state: when the op being executed was handed out (0 = none / input exhausted) and its text
+	opStart int64
+	opLine  atomic.Value
+}
+
+// watchdog ends the run when an op does not complete: the real code is wedged (a deadlock, a reply that never
+// comes).  The harness exits with code 3 after naming the op; everything answered so far has been flushed.
+func (r *runner) watchdog(limit time.Duration) {
+	for {
+		time.Sleep(500 * time.Millisecond)
+		st := atomic.LoadInt64(&r.opStart)
+		if st != 0 && time.Since(time.Unix(0, st)) > limit {
+			line, _ := r.opLine.Load().(string)
+			if len(line) > 300 {
+				line = line[:300]
+			}
+			fmt.Fprintf(os.Stderr, "fatal error: harness watchdog: op did not complete within %v: %s\n", limit, line)
+			buf := make([]byte, 1<<16)
+			n := runtime.Stack(buf, true)
+			os.Stderr.Write(buf[:n])
+			os.Exit(3)
+		}
+	}
 }
 
 func (r *runner) reply(format string, a ...interface{}) {
@@ -71,8 +98,11 @@ func (r *runner) next() (string, bool) {
 		if line == "" {
 			continue
 		}
+		r.opLine.Store(line)
+		atomic.StoreInt64(&r.opStart, time.Now().UnixNano())
 		return line, true
 	}
+	atomic.StoreInt64(&r.opStart, 0) // streams that read everything first (zkloop) run their scenarios after this
 	return "", false
 }
 
@@ -153,6 +183,11 @@ func main() {
 		sc := bufio.NewScanner(fin)
 		sc.Buffer(make([]byte, 1<<20), 1<<26)
 		r := &runner{in: sc, out: bufio.NewWriterSize(fout, 1<<16), resolved: bufio.NewWriterSize(fres, 1<<20)}
+		limit := 60 * time.Second
+		if v, err := strconv.Atoi(os.Getenv("VERIF_OP_TIMEOUT")); err == nil && v > 0 {
+			limit = time.Duration(v) * time.Second
+		}
+		go r.watchdog(limit)
 		s.run(r)
 		r.out.Flush()
 		r.resolved.Flush()
